@@ -122,6 +122,7 @@ func (j *Joe) Subscribe(ctx context.Context, sub Subscription) error {
 	case <-j.done:
 		return ErrProviderClosed
 	case j.subscription <- subscription{done: done, Subscription: sub}:
+		verifYield("sub.accepted")
 	}
 
 	select {
@@ -129,6 +130,8 @@ func (j *Joe) Subscribe(ctx context.Context, sub Subscription) error {
 		return err
 	case <-ctx.Done():
 	}
+
+	verifYield("sub.ctxdone")
 
 	select {
 	case err := <-done:
@@ -165,6 +168,7 @@ func (j *Joe) Publish(msg *Message, topics []string) error {
 	// when Joe is stopped and implements the required Provider behavior.
 	select {
 	case j.message <- pub:
+		verifYield("pub.accepted")
 		return <-errs
 	case <-j.done:
 		return ErrProviderClosed
@@ -185,6 +189,7 @@ func (j *Joe) Shutdown(ctx context.Context) (err error) {
 	}()
 
 	close(j.done)
+	verifYield("shutdown.closed")
 
 	select {
 	case <-j.closed:
@@ -209,6 +214,7 @@ func (j *Joe) start(replay Replayer) {
 	for {
 		select {
 		case msg := <-j.message:
+			verifYield("loop.msg")
 			if replay != nil {
 				m, err := tryPut(msg.messageWithTopics, &replay)
 				if _, isPanic := err.(replayPanic); err != nil && !isPanic { //nolint:errorlint // it's our error
@@ -221,6 +227,7 @@ func (j *Joe) start(replay Replayer) {
 				}
 			}
 			close(msg.replayerErr)
+			verifYield("loop.put")
 
 			for done, sub := range j.subscribers {
 				if topicsIntersect(sub.Topics, msg.topics) {
@@ -231,11 +238,14 @@ func (j *Joe) start(replay Replayer) {
 
 					if err != nil {
 						done <- err
+						verifYield("loop.errsent")
 						j.removeSubscriber(done)
 					}
+					verifYield("loop.sent")
 				}
 			}
 		case sub := <-j.subscription:
+			verifYield("loop.sub")
 			var err error
 			if replay != nil {
 				err = tryReplay(sub.Subscription, &replay)
@@ -247,6 +257,7 @@ func (j *Joe) start(replay Replayer) {
 			// should block for the entire duration of the subscription.
 			//
 			// If there is demand to handle replayer panics a feature could be added.
+			verifYield("loop.replayed")
 			if _, isPanic := err.(replayPanic); err != nil && !isPanic { //nolint:errorlint // it's our error
 				sub.done <- err
 				close(sub.done)
@@ -254,8 +265,10 @@ func (j *Joe) start(replay Replayer) {
 				j.subscribers[sub.done] = sub.Subscription
 			}
 		case sub := <-j.unsubscription:
+			verifYield("loop.unsub")
 			j.removeSubscriber(sub)
 		case <-j.done:
+			verifYield("loop.done")
 			return
 		}
 	}
@@ -263,6 +276,7 @@ func (j *Joe) start(replay Replayer) {
 
 func (j *Joe) closeSubscribers() {
 	for done := range j.subscribers {
+		verifYield("close.sub")
 		j.removeSubscriber(done)
 	}
 }
